@@ -945,3 +945,33 @@ where
     }
     out
 }
+
+/// For C09 (structure must not depend on witness values): every catalogue program of one field
+/// with deterministic admissible operands that steer the data-dependent paths (0, 1, m-1, limbs at
+/// 2^B-1 / 2^B, carries, un-normalised chains, equal / adjacent pairs). No seeded randomness.
+pub fn catalogue_for_structure<K: Emu>(thorough: bool) -> Vec<(FProg<K>, Vec<FIn>)>
+where
+    MEP: FieldEmulationParams<F, K>,
+{
+    use rand::SeedableRng;
+    let mut rng = ChaCha8Rng::seed_from_u64(0xC09);
+    let mut out = vec![];
+    for (idx, e) in field_catalogue::<K>(0, &mut rng, if thorough { 3 } else { 1 }).into_iter().enumerate() {
+        if !thorough && !e.quick {
+            continue;
+        }
+        let mut inputs = gen_inputs(&e, idx, if thorough { 8 } else { 3 }, 0, 64, &mut rng);
+        inputs.retain(|i| e.prog.eval(i).is_some());
+        if e.prog.nonunique {
+            // operands on which the non-canonical decomposition has no honest run (finding P2)
+            let lb = log2_base::<K>();
+            let mask = (BigUint::one() << lb) - BigUint::one();
+            let m = modulus::<K>();
+            inputs.retain(|i| (((&i.fe[0] % &m) + &m - BigUint::one()) % &m) & &mask != mask);
+        }
+        if !inputs.is_empty() {
+            out.push((e.prog, inputs));
+        }
+    }
+    out
+}
